@@ -42,6 +42,7 @@ type pipBackend struct {
 	cwd      filesystem.Filespace
 	ns       pipservices.Namespaces
 	sections sync.Map     // task id -> func()
+	failing  sync.Map     // task id -> true: the probe command returns an error after its section
 	pending  atomic.Int64 // hold calls that have not returned
 	deps     struct {
 		Runner      pipservices.Runner       `dependency:"PipRunner"`
@@ -104,6 +105,9 @@ func newPipeline() (backend, error) {
 				return fmt.Errorf("c15probe: unknown id %q", args.ID)
 			}
 			f.(func())()
+			if _, bad := b.failing.Load(args.ID); bad {
+				return fmt.Errorf("c15probe: injected failure of %s", args.ID)
+			}
 			return nil
 		},
 	}))
